@@ -495,6 +495,14 @@ def oracle_c09(case, obs, res):
             res.classes.append("no_checkpoint_followed")
             if seen and not c.get("deferred_after"):
                 res.fail("pending_flag_lost", "deferred_pause_requested is False after the plan completed without a checkpoint", **F())
+            if not seen and not c.get("deferred_after"):
+                # accepted (acc is non-empty) while no message was left to see it: the request arrived during the
+                # engine's end-of-plan work; it was accepted, so it must be reported as pending until the next plan starts
+                res.fail(
+                    "pending_flag_lost",
+                    "a deferred pause request was accepted after the plan's last message, but deferred_pause_requested is False after the call",
+                    **F(late_request=True),
+                )
             if obs.probe is not None and obs.probe.get("outcome") == "return":
                 ps = obs.probe.get("hook_start")
                 if ps is not None and ps < len(obs.hook) and obs.hook[ps]["deferred"]:
